@@ -17,6 +17,17 @@ def membership_sites(prog, pv, pv_local=None):
     ancestor set of a term: calls of HpoGroup::contains / `&` with one operand from each side.
     returns list of dict(body, term, root (modifier|categories), inclusive(bool), fields)"""
     out = []
+    # the root sets are the fields the PUBLIC accessors Ontology::modifier() / Ontology::categories() hand out (whatever they are called)
+    role_of = {"modifier": "modifier", "categories": "categories"}
+    for role in ("modifier", "categories"):
+        ab = prog.body("ontology::Ontology::" + role)
+        if ab is not None:
+            for a in pv.of_return(ab):
+                if a[0] == "field" and a[1].endswith("::Ontology"):
+                    role_of[a[2]] = role
+
+    def root_roles(atoms):
+        return {role_of[f] for f in field_names(atoms, "::Ontology") if f in role_of}
     for b in prog.production():
         if b.kind not in ("Fn", "AssocFn", "Closure"):
             continue
@@ -26,11 +37,12 @@ def membership_sites(prog, pv, pv_local=None):
             is_and = c.trait == "std::ops::BitAnd" and "HpoGroup" in (c.def_args or "")
             if not (is_contains or is_and) or len(t.args) != 2:
                 continue
-            sides = [pv.of_operand(b, a) for a in t.args]
+            # (a private helper `fn is_or_descends_from(&self, root)` receives the root as a parameter: follow it to the call sites)
+            sides = [pv.through_callers(pv.of_operand(b, a)) for a in t.args]
             # the term side is sliced locally (no closure-parameter binding, no flow through mutated containers):
             # the union with the term's own id has to be visible between the read of all_parents and the test
             lsides = [pv_local.of_operand(b, a) for a in t.args] if pv_local is not None else sides
-            roots = [field_names(s, "::Ontology") & {"modifier", "categories"} for s in sides]
+            roots = [root_roles(s) for s in sides]
             tsets = ["all_parents" in term_fields(s) for s in lsides]
             for i in (0, 1):
                 j = 1 - i
@@ -42,8 +54,8 @@ def membership_sites(prog, pv, pv_local=None):
                         # the term's own id tested separately:  `root == term.id() || term.all_parents().contains(&root)`
                         for ebi, et in b.calls():
                             if et.callee.trait == "std::cmp::PartialEq" and et.callee.method in ("eq", "ne") and len(et.args) == 2:
-                                es = [pv.of_operand(b, a) for a in et.args]
-                                er = [field_names(x, "::Ontology") & {"modifier", "categories"} for x in es]
+                                es = [pv.through_callers(pv.of_operand(b, a)) for a in et.args]
+                                er = [root_roles(x) for x in es]
                                 ei = ["id" in term_fields(x) for x in (pv_local.of_operand(b, a) if pv_local is not None else pv.of_operand(b, a) for a in et.args)]
                                 if (er[0] and ei[1]) or (er[1] and ei[0]):
                                     incl = True
